@@ -264,7 +264,9 @@ func (s *SpecValidator) validateDuplicatePropertyNames() *Result {
 	return res
 }
 
-func (s *SpecValidator) resolveRef(ref *spec.Ref) (*spec.Schema, error) {
+func (s *SpecValidator) resolveRef(ref *spec.Ref) (sch *spec.Schema, err error) {
+	defer unresolvedOnPanic(&err)
+
 	if s.spec.SpecFilePath() != "" {
 		return spec.ResolveRefWithBase(s.spec.Spec(), ref, &spec.ExpandOptions{RelativeBase: s.spec.SpecFilePath()})
 	}
@@ -821,7 +823,7 @@ func (s *SpecValidator) validateReferencesValid() *Result {
 		// NOTE: with default settings, loads.Document.Expanded()
 		// stops on first error. Anyhow, the expand option to continue
 		// on errors fails to report errors at all.
-		exp, err := s.spec.Expanded()
+		exp, err := s.expandedDocument()
 		if err != nil {
 			res.AddErrors(unresolvedReferencesMsg(err))
 		}
@@ -886,7 +888,14 @@ func (s *SpecValidator) canValidateAgainst(schema *spec.Schema) bool {
 		return false
 	}
 
-	return spec.ExpandSchema(&probe, s.spec.Spec(), nil) == nil
+	return expandSchemaAgainst(&probe, s.spec.Spec()) == nil
+}
+
+// expandedDocument is s.spec.Expanded(), a panic of which is an error.
+func (s *SpecValidator) expandedDocument() (exp *loads.Document, err error) {
+	defer unresolvedOnPanic(&err)
+
+	return s.spec.Expanded()
 }
 
 func deepCloneSchema(src spec.Schema) (spec.Schema, error) {
